@@ -138,6 +138,32 @@ def run(chk):
                                  "parsing code has no unaccounted panic-capable site (any input returns a value or an error)")
     chk.floor("panic-capable sites inventoried in the parser regions", n, 80)
 
+    # a failure reported by a callee must not be dropped: the text that follows it is not what was asked for
+    IGNORED_OK = {("emit_core::value::Value::<'v>::parse", "visit"): "the visitor's slot stays None when the visit fails; the slot is the result"}
+
+    def results_inspected():
+        bad, n = [], 0
+        for b in region:
+            for c in b.calls(normal_only=True):
+                if c.dest is None or "p" in c.dest:
+                    continue
+                if not re.match(r"(core::result::)?Result<", b.local_ty(c.dest["l"])):
+                    continue
+                n += 1
+                if (b.key, c.callee.get("name")) in IGNORED_OK:
+                    continue
+                if not common.result_checked(b, c):
+                    bad.append((b, c))
+        if n < 80:
+            return False, "only %d Result-returning call sites found in the parser regions (expected >= 80)" % n, [], None
+        if bad:
+            b, c = bad[0]
+            return False, ("%s discards the Result of %s at %s: a failed step (text that does not fit, a refused write) goes on "
+                           "to be parsed or returned as if it had succeeded" % (b.key, c.callee.get("name"), c.loc)), [], c.loc
+        return True, "", ["%d Result-returning call sites in the parser regions, each inspected (?, match, is_ok, returned, passed on); "
+                          "%d allow-listed with a reason" % (n, len(IGNORED_OK))]
+    chk.ob("C15.R1:results-inspected", "no Result produced inside a parser (text buffering included) is discarded", results_inspected)
+
     def forbidden():
         bad = []
         nsite = 0
@@ -195,6 +221,78 @@ def run(chk):
     # ---- R3 -----------------------------------------------------------------------------------------------------
     chk.ob("C15.R3:path-grammar", "the automaton extracted from is_valid_path accepts every ident(::ident)* and nothing outside seg(::seg)*",
            lambda: pathdfa.check(P))
+
+    # every way a Path comes into existence from a runtime string goes through the grammar check
+    RAW_ALLOW = {
+        "append": "the concatenation `a::b` + `::` + `c::d` of two valid paths is a valid path",
+    }
+
+    def unvalidated_paths():
+        PATH = "emit_core::path::Path"
+        ev, bad, n = [], [], 0
+        for b in P.bodies.values():
+            if b.crate not in ("emit", "emit_core", "emit_traceparent") or b.kind.startswith(("Const", "Static", "AssocConst", "InlineConst")):
+                continue
+            fn = b.key.rsplit("::", 1)[-1]
+            own = mir._strip_lifetimes(b.self_ty or "").split("<")[0] == PATH or "impl emit_core::path::Path<" in b.key
+            for bb, j, st in b.statements(normal_only=True):
+                rv = st.get("rv") if st["k"] == "assign" else None
+                if not rv or rv["k"] != "agg" or (rv.get("adt") or "").split("<")[0] != PATH:
+                    continue
+                n += 1
+                o = b.origin(rv["ops"][0]) if rv.get("ops") else ("unknown",)
+                if own and fn.endswith("_raw"):
+                    ev.append("%s: the documented unchecked constructor" % b.key)
+                    continue
+                # a copy of an existing path's text
+                if derives_self_text(b, o):
+                    ev.append("%s: re-wraps the text of an existing Path" % b.key)
+                    continue
+                g = common.guarded_true(b, bb, lambda c: c.callee.get("name") == "is_valid_path" and c.args and
+                                        common.derives_from_root_param(P, b, b.origin(c.args[0]), 1, through=("get", "as_ref", "deref", "as_str", "borrow")))
+                if g is not None and mir.o_is_param(o, idx=1):
+                    ev.append("%s: constructed on the true edge of is_valid_path(<the same text>) at %s" % (b.key, g.loc))
+                    continue
+                bad.append((b, st.get("loc") or b.span, "constructs a Path from %s without the grammar check" % mir.o_str(o)))
+            for c in b.calls(normal_only=True):
+                nm = c.callee.get("name") or ""
+                if not (nm.endswith("_raw") and "emit_core::path::Path" in (c.callee.get("path") or "")):
+                    continue
+                n += 1
+                if own and fn.endswith("_raw"):
+                    ev.append("%s -> %s: unchecked wrapper of the unchecked constructor" % (b.key, nm))
+                    continue
+                if own and fn in RAW_ALLOW:
+                    ev.append("%s -> %s: %s" % (b.key, nm, RAW_ALLOW[fn]))
+                    continue
+                rs = common.roots(b.origin(c.args[0])) if c.args else set()
+                if rs and all(r[0] == "const" for r in rs):
+                    ev.append("%s -> %s: constant text" % (b.key, nm))
+                    continue
+                bad.append((b, c.loc, "passes runtime text to the unchecked constructor %s" % nm))
+        if n < 10:
+            return False, "only %d Path construction sites found (expected >= 10)" % n, [], None
+        if bad:
+            b, loc, why = bad[0]
+            return False, "%s %s at %s: a malformed path (empty segment, leading/trailing `::`) is accepted instead of rejected" % (b.key, why, loc), [], loc
+        return True, "", ev
+
+    def derives_self_text(b, o):
+        d = 0
+        while d < 10:
+            d += 1
+            if o[0] == "call" and o[1].callee.get("name") in ("by_ref", "to_owned", "clone", "to_cow", "deref", "borrow") and o[1].args:
+                o = b.origin(o[1].args[0])
+                continue
+            if o[0] == "field" and str(o[2]) == "0" and (mir.o_is_param(o[1], idx=1) or (o[1][0] == "deref" and mir.o_is_param(o[1][1], idx=1))):
+                return True
+            if o[0] in ("ref", "deref", "copy"):
+                o = o[1]
+                continue
+            return False
+        return False
+    chk.ob("C15.R3:unvalidated-paths", "a Path is only built from runtime text on the accepting edge of is_valid_path; the unchecked "
+           "constructors are called with constant text or from the allow table", unvalidated_paths)
 
     def is_child_of():
         b = P.body("emit_core::path::Path::<'a>::is_child_of")
@@ -339,6 +437,90 @@ def run(chk):
                 return False, "a digit field's parse result is ignored at %s" % c.loc, [], c.loc
         return True, "", [b.span]
     chk.ob("C15.R4:rfc3339-layout", "every separator of the RFC 3339 layout is checked at its offset and every digit field is ?-checked", rfc3339_layout)
+
+    # ---- the calendar shortcut: a leap rule without century terms is only right below 2100 -----------------------
+    def year_offset(o):
+        """(B) when `o` is parts.years - B (through casts / overflow-checked subtraction), else None"""
+        d = 0
+        while d < 10:
+            d += 1
+            if o[0] == "cast":
+                o = o[1]
+                continue
+            if o[0] == "field" and o[1][0] == "binop":
+                o = o[1]
+                continue
+            if o[0] == "binop" and o[1] in ("Sub", "SubWithOverflow"):
+                base, k = o[2], mir.o_const_value(o[3])
+                while base[0] == "cast":
+                    base = base[1]
+                if isinstance(k, int) and base[0] == "field" and base[2] == "years" and mir.o_is_param(base[1], idx=1):
+                    return k
+                return None
+            if o[0] == "field" and o[2] == "years" and mir.o_is_param(o[1], idx=1):
+                return 0
+            return None
+        return None
+
+    def four_year_shortcut():
+        bs = [x for k, x in P.bodies.items() if k.endswith("timestamp::Timestamp::from_parts")]
+        if not bs:
+            raise mir.AnchorMissing("Timestamp::from_parts")
+        b = bs[0]
+
+        def century_terms(blocks):
+            for bb in blocks:
+                for st in b.blocks[bb]["stmts"]:
+                    rv = st.get("rv") if st.get("k") == "assign" else None
+                    if rv and rv["k"] == "binop" and rv["op"] in ("Rem", "Div"):
+                        v = mir.o_const_value(b.origin(rv["b"]))
+                        if v in (100, 400):
+                            return True
+            return False
+
+        def four_year_terms(blocks):
+            for bb in blocks:
+                for st in b.blocks[bb]["stmts"]:
+                    rv = st.get("rv") if st.get("k") == "assign" else None
+                    if rv and rv["k"] == "binop":
+                        v = mir.o_const_value(b.origin(rv["b"]))
+                        if (rv["op"] in ("Shr", "ShrUnchecked") and v == 2) or (rv["op"] == "BitAnd" and v == 3) or (rv["op"] in ("Rem", "Div") and v == 4):
+                            return True
+                t = b.blocks[bb]["term"]
+                if t["k"] == "call" and mir.CallSite(b, bb, t).callee.get("name") == "trailing_zeros":
+                    return True
+            return False
+        ev, n = [], 0
+        for i, t in b.switches():
+            c = mir.norm_cmp(b.switch_origin(i), lambda o: year_offset(o) is not None)
+            if c is None:
+                continue
+            op, l, r = c
+            k = mir.o_const_value(r)
+            if not isinstance(k, int) or op not in ("Le", "Lt", "Gt", "Ge"):
+                continue
+            base = year_offset(l)
+            # blocks reached only when the comparison holds / does not hold
+            tg = [(v, nn) for v, nn in t["targets"]] + [("otherwise", t["otherwise"])]
+            false_t = [nn for v, nn in tg if v == "0"]
+            true_t = [nn for v, nn in tg if v != "0"]
+            if len(false_t) != 1 or len(true_t) != 1:
+                continue
+            below_t = true_t[0] if op in ("Le", "Lt") else false_t[0]
+            hi = base + (k if op in ("Le", "Gt") else k - 1)   # the greatest year sent to `below_t`
+            region = [bb for bb in range(len(b.blocks)) if b.edge_dominates(i, below_t, bb)]
+            # every block a century term dominates is outside the shortcut
+            if not four_year_terms(region) or century_terms(region):
+                continue
+            n += 1
+            if hi > 2099:
+                return False, ("Timestamp::from_parts takes its every-fourth-year shortcut (no /100, /400 terms) for years up to %d: %d "
+                               "is divisible by 100 and not by 400, so dates after February of that year convert one day late"
+                               % (hi, 2100)), [], b.blocks[i]["term"].get("loc") or b.span
+            ev.append("the every-fourth-year shortcut is guarded to years <= %d (< 2100)" % hi)
+        return True, "", ev or ["from_parts has no century-free leap-year shortcut"]
+    chk.ob("C15.R5:four-year-shortcut", "a leap-year computation without century terms is only reachable for years below 2100",
+           four_year_shortcut)
 
     def digits_fn():
         b = P.body("emit_core::timestamp::parse_rfc3339::digits")
